@@ -1296,6 +1296,8 @@ impl Runner {
         };
         let id = RequestId(rid_bytes);
         let is_findnode = matches!(self.w.reqs[qi].body, RequestBody::FindNode { .. });
+        // answers to the handler's own ENR request: mostly the peer's record or another node's
+        let style = if !self.w.reqs[qi].external { *rng.pick(&[0u8, 0, 1, 2, 3, 4, 4, 4, 5]) } else { style };
         let body = match (is_findnode, style % 6) {
             (true, 0) => ResponseBody::Nodes { total: 1, nodes: vec![self.w.peers[pi].enrs[2].clone()] },
             (true, 1) => ResponseBody::Nodes { total: 3, nodes: vec![self.w.peers[pi].enrs[2].clone()] },
